@@ -181,6 +181,40 @@ theorem C49_effect_host_suffix_replace (pre o n : Str) (r : Req) (hr : r.host = 
     rw [List.isSuffixOf_iff_suffix]; exact List.suffix_append pre o
   simp [doAction, hr, hs, trimSuffix]
 
+/-- the driver's oracle for HOST_SUFFIX_REPLACE (`specHostSuffixReplace`) IS this statement: on `pre ++ old` it yields
+    `pre ++ new` — the suffix occurrence, however often `old` occurs earlier in `pre` — and it is what `Action.Do` is
+    modelled to compute -/
+theorem C49_oracle_host_suffix_replace (pre o n : Str) (r : Req) :
+    specHostSuffixReplace (pre ++ o) o n = pre ++ n ∧
+    (doAction .hostSuffixReplace [o, n] r).host = specHostSuffixReplace r.host o n := by
+  have hs : o.isSuffixOf (pre ++ o) = true := by
+    rw [List.isSuffixOf_iff_suffix]; exact List.suffix_append pre o
+  constructor
+  · simp [specHostSuffixReplace, hs]
+  · simp only [doAction, specHostSuffixReplace, trimSuffix, List.getD_cons_zero, List.getD_cons_succ]
+    split <;> simp_all
+
+/-- `www.company.com`, `.com` → `.net`: the LAST occurrence changes (not `www.netpany.com`) -/
+example : specHostSuffixReplace "www.company.com".toList ".com".toList ".net".toList = "www.company.net".toList := by decide
+
+/-- the oracles for PATH_PREFIX_TRIM / PATH_PREFIX_ADD are the modelled `Action.Do`, and on `p ++ rest` the trim
+    removes the leading occurrence only -/
+theorem C49_oracle_path_prefix (p rest : Str) (r : Req) :
+    specPathPrefixTrim (p ++ rest) p = ensureSlash rest ∧
+    (doAction .pathPrefixTrim [p] r).path = specPathPrefixTrim r.path p ∧
+    (doAction .pathPrefixAdd [p] r).path = specPathPrefixAdd r.path p := by
+  have hp : p.isPrefixOf (p ++ rest) = true := by
+    rw [List.isPrefixOf_iff_prefix]; exact List.prefix_append p rest
+  refine ⟨by simp [specPathPrefixTrim, hp, ensureSlash], by simp [doAction, specPathPrefixTrim, ensureSlash, trimPrefix], ?_⟩
+  simp only [doAction, specPathPrefixAdd, ensureSlash, trimPrefix, List.getD_cons_zero]
+  cases hpath : r.path with
+  | nil => simp [List.isPrefixOf]
+  | cons c cs =>
+    by_cases hc : c = '/'
+    · simp [List.isPrefixOf, hc]
+    · have hc' : ¬ '/' = c := fun e => hc e.symm
+      simp [List.isPrefixOf, hc, hc']
+
 /-- … and a host without that suffix is left alone -/
 theorem C49_effect_host_suffix_replace_nomatch (o n : Str) (r : Req) (hr : o.isSuffixOf r.host = false) :
     doAction .hostSuffixReplace [o, n] r = r := by
